@@ -277,7 +277,7 @@ PROPS["C19"] = _C19
 def _solver_nontrivial(line, verdict):
     return any(k in verdict for k in ("log-accepted", "solution-covered", "inner-certified", "unknown-small", "status-", "default-solver"))
 
-_SOLVER_WL = lambda tier, seed: [{"harness": "h_solver", "tag": "solver", "args": ["c05", seed, 60 if tier == "quick" else 1500]}]
+_SOLVER_WL = lambda tier, seed: [{"harness": "h_solver", "tag": "solver", "args": ["c05", seed, 160 if tier == "quick" else 2500]}]
 
 PROPS["C05"] = {
     "modules": ["IbexProofs.Props.C05"],
